@@ -252,15 +252,26 @@ func runC17(c *core.Ctx) {
 			c.Failf("identity_not_copy", "conversion with an equal mapping and scale 1 is not an exact copy (source vs result): %s", d)
 			return
 		}
+		// (a reweighting first in half of the cases: a copy that has not been written to yet)
+		rwFirst := r.Bool()
 		c.Guard("identity.independence", func() {
+			if rwFirst {
+				res.I().Reweight([]float64{2, 0.5, 0x1p-12}[r.Intn(3)])
+			}
 			res.I().Add(m1.ClampIn(centre * 3))
 			res.I().AddWithCount(-m1.ClampIn(centre), 2)
+			if !rwFirst {
+				res.I().Reweight(2)
+			}
 		})
 		if d := before.Diff(mon.Observe(src, nil)); d != "" {
 			c.Failf("identity_aliases_source", "mutating the result of the identity conversion changed the source: %s", d)
 		}
 		snap := mon.Observe(res, nil)
 		c.Guard("identity.independence", func() {
+			if r.Bool() {
+				src.I().Reweight(4)
+			}
 			src.I().Add(m1.ClampIn(centre * 5))
 			src.I().Clear()
 		})
